@@ -45,6 +45,11 @@ class SimClock:
         if self.reads in self.jumps:
             self.now += self.jumps[self.reads]       # a stalled node: hours
         self.crash.on_clock_read()
+        # time budgets live on this clock as well: fire expired timers
+        if SimTimer.pending:
+            due = [t for t in SimTimer.pending if t.deadline <= self.now]
+            for t in due:
+                t.fire()
         return self.now
 
     def advanced(self) -> int:
@@ -52,16 +57,37 @@ class SimClock:
 
 
 class SimTimer:
-    """Stands in for threading.Timer: never fires (budgets are FE-based)."""
+    """Stands in for threading.Timer on the simulated clock.
+
+    A timer fires (synchronously, at the next clock read) once the simulated
+    time has passed its deadline - e.g. after a forward jump of hours. No real
+    thread is ever started."""
+
+    pending: list = []
+    clock = None
 
     def __init__(self, interval=None, function=None, args=None, kwargs=None):
-        self.interval = interval
+        self.interval = float(interval or 0.0)
+        self.function = function
+        self.args = args or ()
+        self.kwargs = kwargs or {}
+        self.deadline = None
+        self.fired = 0
 
     def start(self) -> None:
-        pass
+        now = SimTimer.clock.now if SimTimer.clock is not None else 0
+        self.deadline = now + int(self.interval * 1_000_000_000)
+        SimTimer.pending.append(self)
 
     def cancel(self) -> None:
-        pass
+        if self in SimTimer.pending:
+            SimTimer.pending.remove(self)
+
+    def fire(self) -> None:
+        self.cancel()
+        self.fired += 1
+        if self.function is not None:
+            self.function(*self.args, **self.kwargs)
 
 
 class _CountingFile(io.TextIOBase):
@@ -107,6 +133,8 @@ def install(clock_spec: dict, crash_spec: dict | None, shuffle_seed: int):
     crash = Crash(crash_spec)
     clock = SimClock(clock_spec, crash)
     base = importlib.import_module("moptipy.api._process_base")
+    SimTimer.clock = clock
+    SimTimer.pending = []
     base.Timer = SimTimer
     for name in ("_process_base", "_process_no_ss", "_process_no_ss_log",
                  "_process_ss", "_process_ss_log", "_mo_process_no_ss",
